@@ -65,16 +65,21 @@ Definition restore_index_name (n : option string) : option string :=
   end.
 
 (* _perform_read_parquet_dask: the columns handed to Dask's own reader for the
-   meta frame:
-     index_names = {"hilbert_distance"} | {name for name in index_columns if isinstance(name, str)}
-     cols_no_index = [col for col in columns if col not in index_names]          *)
-Definition index_names (index_cols : list idxdesc) : list string :=
-  "hilbert_distance"%string ::
-  flat_map (fun d => match d with IdxStr n => [n] | _ => [] end) index_cols.
+   meta frame (code as of a257a80):
+     pandas_metadata = datasets[0].schema.pandas_metadata or {}
+     index_names = {name for name in pandas_metadata.get("index_columns", []) if isinstance(name, str)}
+     if not pandas_metadata: index_names = {"hilbert_distance"}
+     cols_no_index = [col for col in columns if col not in index_names]
+   has_md = the first dataset carries pandas metadata.  A column that merely is
+   NAMED hilbert_distance is an ordinary column of a dataset with metadata.    *)
+Definition index_names (has_md : bool) (index_cols : list idxdesc) : list string :=
+  if has_md
+  then flat_map (fun d => match d with IdxStr n => [n] | _ => [] end) index_cols
+  else ["hilbert_distance"%string].
 
-Definition cols_no_index (index_cols : list idxdesc) (columns : option (list string))
-  : option (list string) :=
-  option_map (filter (fun c => negb (mem c (index_names index_cols)))) columns.
+Definition cols_no_index (has_md : bool) (index_cols : list idxdesc)
+  (columns : option (list string)) : option (list string) :=
+  option_map (filter (fun c => negb (mem c (index_names has_md index_cols)))) columns.
 
 (* ---- dtype names ---- *)
 
